@@ -16,7 +16,7 @@ func init() { Register(c03{}) }
 func (c03) ID() string { return "C03" }
 
 func (c03) Rule() string {
-	return "each run = a seeded write history (inserts, vector updates, vector removal, deletes, id reuse, reopen) on a real shard with a Vamana index (six metrics, quantiser none / binary fixed / binary learned, legal degree bound / alpha / search size) built by 1-4 insert workers interleaved by the seeded scheduler at every node lock, cache mutex and storage operation; after every write seeded graph queries (limit <= searchSize, weights, pre-filters of every selectivity) are asked of the warm instance and periodically of a cold copy. Always: results live, carry the field, inside the filter, distinct, <= limit, non-decreasing distance, distance = index distance (quantised form recomputed from persisted parameters), hybrid = -weight*distance, search never errors. Exact tie-tolerant k-NN is demanded in the two stated regimes: insert-only history with <= min(degreeBound, searchSize-1) vectors; pre-filter with <= searchSize members. Half of the runs are insert-only small collections to reach regime one. Non-trivial: >= 5 answers with >= 2 results over >= 2 model states. Distinct: (trace hash, final state)."
+	return "each run = a seeded write history (inserts, vector updates, vector removal, deletes, id reuse, reopen) on a real shard with a Vamana index (six metrics, quantiser none / binary fixed / binary learned / product, legal degree bound / alpha / search size) built by 1-4 insert workers interleaved by the seeded scheduler at every node lock, cache mutex and storage operation; after every write seeded graph queries (limit <= searchSize, weights, pre-filters of every selectivity) are asked of the warm instance and periodically of a cold copy. Always: results live, carry the field, inside the filter, distinct, <= limit, non-decreasing distance, distance = index distance (quantised form recomputed from persisted parameters: binary threshold, or product centroids and stored codes), hybrid = -weight*distance, search never errors. Exact tie-tolerant k-NN is demanded in the two stated regimes: insert-only history with <= min(degreeBound, searchSize-1) vectors; pre-filter with <= searchSize members. Half of the runs are insert-only small collections to reach regime one. Non-trivial: >= 5 answers with >= 2 results over >= 2 model states. Distinct: (trace hash, final state)."
 }
 
 func c03Schema(r *rand.Rand) models.IndexSchema {
@@ -99,6 +99,7 @@ func (c03) Execute(env *Env) {
 	vp := p.Schema["vv"].VectorVamana
 	dim, metric, quant := vecIndexInfo(p.Schema["vv"])
 	insertOnly := true
+	var tr pqTracker
 	env.RunSim(env.Spec.Sim, func() {
 		w := NewShardWorld(env, sw, col, "bbolt", p.CacheSize)
 		if err := w.Open(); err != nil {
@@ -113,7 +114,8 @@ func (c03) Execute(env *Env) {
 			if !applyOp(env, w, model, i, op) {
 				return
 			}
-			if len(p.Queries[i]) == 0 {
+			isPQ := quant != nil && quant.Type == models.QuantizerProduct
+			if len(p.Queries[i]) == 0 && !isPQ {
 				continue
 			}
 			states[model.StateKey()] = true
@@ -122,7 +124,13 @@ func (c03) Execute(env *Env) {
 				env.Infra("dump: %v", err)
 				return
 			}
-			vm := vectorMode(dim, metric, quant, dump[indexBucketName(p.Schema, "vv")])
+			vm, ok := vecModeAt(env, model, p.Schema, "vv", dump, &tr, i)
+			if !ok {
+				return
+			}
+			if len(p.Queries[i]) == 0 {
+				continue
+			}
 			targets := []*ShardWorld{w}
 			names := []string{"warm"}
 			if p.ColdEvery > 0 && i%p.ColdEvery == 0 {
@@ -136,7 +144,7 @@ func (c03) Execute(env *Env) {
 				names = append(names, "cold copy")
 			}
 			nvec := 0
-			for _, d := range model.Docs {
+			for _, d := range detRange(model.Docs) {
 				if _, ok := docVector(d, "vv", dim); ok {
 					nvec++
 				}
@@ -179,6 +187,13 @@ func (c03) Execute(env *Env) {
 						return
 					}
 					if d := CheckValidRanked(want, a.Items, vo.Limit, vo.Weight, vm.Opaque); d != "" {
+						if pqCosineUntrained(metric, quant, vm) {
+							if alt, err := model.VectorCandidates("vv", dim, VecMode{Float: models.DistanceEuclidean}, vo.Vector, filter); err == nil &&
+								CheckValidRanked(alt, a.Items, vo.Limit, vo.Weight, false) == "" {
+								env.Violate("wrong-answer", "product-cosine-untrained-reports-euclidean", "%s: cosine index with an untrained product quantiser reports squared euclidean distances: %s; got %s", where, d, fmtItems(a.Items))
+								return
+							}
+						}
 						env.Violate("wrong-answer", "graph-invalid", "%s: %s; got %s", where, d, fmtItems(a.Items))
 						return
 					}
